@@ -69,8 +69,49 @@ def ret_assignments(body, blocks):
     return out
 
 
-def err_tree_of_ret(tr, item):
+def _chase_moves(tr, l, limit=6):
+    """follow `l = move l2` single definitions"""
+    while limit > 0:
+        limit -= 1
+        ds = tr.defs.get(l, [])
+        # (duplicated blocks of the second representation repeat a definition: all copies must say the same)
+        if ds and all(d[2] == "assign" and d[3]["rv"]["r"] == "use" and not d[3]["p"]["p"] for d in ds):
+            ps = [op_place(d[3]["rv"]["o"]) for d in ds]
+            if all(p is not None and not [e for e in p["p"] if e != "deref"] for p in ps) and len({p["l"] for p in ps}) == 1:
+                l = ps[0]["l"]
+                continue
+        break
+    return l
+
+
+def err_tree_of_ret(tr, item, region_blocks=None):
     if item[1] == "term":
+        t = item[2]
+        # `helper(..)?` with the helper inlined: `_r = Err(E)` .. `from_residual((branch(_r) as Break).0)` and the two
+        # error types are the same (the conversion is `From<T> for T`): the function returns that Err(E)
+        ga = [ty_str(a) for a in (t.get("f") or {}).get("a", [])]
+        if callee(t).endswith("FromResidual::from_residual") and len(ga) == 2 and region_blocks is not None and \
+                ga[0].startswith("core::result::Result<") and ga[1].startswith("core::result::Result<core::convert::Infallible, ") and \
+                ga[0].endswith(", " + ga[1][len("core::result::Result<core::convert::Infallible, "):]):
+            p = op_place(t["args"][0])
+            a = _chase_moves(tr, p["l"]) if p is not None else None
+            ds = tr.defs.get(a, []) if a is not None else []
+            src = None
+            if len(ds) == 1 and ds[0][2] == "assign" and ds[0][3]["rv"]["r"] == "use":
+                q = op_place(ds[0][3]["rv"]["o"])
+                pj = [e for e in q["p"] if e != "deref"] if q is not None else []
+                if q is not None and len(pj) == 2 and isinstance(pj[0], dict) and pj[0].get("n") == "Break":
+                    bd = tr.defs.get(q["l"], [])
+                    if bd and all(d[2] == "call" and callee(d[3]) == "core::ops::try_trait::Try::branch" for d in bd):
+                        bps = [op_place(d[3]["args"][0]) for d in bd]
+                        if all(bp is not None and not bp["p"] for bp in bps) and len({bp["l"] for bp in bps}) == 1:
+                            src = _chase_moves(tr, bps[0]["l"])
+            if src is not None:
+                errs = [(d[0], d[3]) for d in tr.defs.get(src, []) if d[2] == "assign" and not d[3]["p"]["p"] and
+                        d[3]["rv"]["r"] == "agg" and d[3]["rv"].get("vname") == "Err" and d[0] in region_blocks]
+                if len(errs) == 1:
+                    rv = errs[0][1]["rv"]
+                    return ("adt", rv.get("n", "") + "::" + rv.get("vname", ""), [agg_tree(tr, o) for o in rv["ops"]])
         return ("call", callee(item[2]), item[0])
     rv = item[2]["rv"]
     if rv["r"] == "agg":
@@ -212,7 +253,7 @@ def check_tag_loop(chk, sname, body, info, P="C13"):
                     P + "-b/dup-exit", inst, "after a duplicate the decoder continues instead of returning",
                     "", site)
         rets = ret_assignments(body, {b for b in dup_region if body.dominates(fbb, b)})
-        trees = [err_tree_of_ret(tr, r) for r in rets]
+        trees = [err_tree_of_ret(tr, r, {b for b in dup_region if body.dominates(fbb, b)}) for r in rets]
         want = ("adt", "core::result::Result::Err",
                 [("adt", "zvt_builder::ZVTError::DuplicateTag", [("adt", "zvt_builder::Tag::Tag", [("int", n)])])])
         chk.require(trees == [want], P + "-b/dup-error", inst,
